@@ -10,6 +10,7 @@
 From Coq Require Import List NArith Bool Lia.
 From Verif Require Import gen.GoLoops.
 From Verif Require Model.Proxy Model.Throttle Model.Admission.
+From Coq Require String.
 Import ListNotations.
 Open Scope N_scope.
 Open Scope list_scope.
@@ -48,5 +49,14 @@ Proof.
   intros. pose proof (go_client_filter_gen max xs 0 0 []) as H.
   destruct (client_filter max xs (0, 0, [])) as [[ov cur] out]. exact H.
 Qed.
+
+
+(* the loop reads exactly these inputs, by name (the lemmas instantiate them by position) *)
+Section InputNames.
+Import String.
+Open Scope string_scope.
+Lemma go_client_filter_inputs : LoopInputs.loop_client_filter_inputs = (["maxBlobSize"]).
+Proof. reflexivity. Qed.
+End InputNames.
 
 Print Assumptions go_client_filter.
